@@ -227,6 +227,7 @@ type analysis struct {
 	summaries  map[*types.Func]*memSummary
 	readCaches map[string]bool
 	resultObjs map[types.Object]bool // the named results of every function
+	curCallee  *types.Func           // the callee of the site being classified
 }
 
 func isErrorType(t types.Type) bool {
@@ -763,9 +764,18 @@ func (a *analysis) scanForward1(u *unit, path []pathEl, v string, obj types.Obje
 						}
 						return "unknown", "conditional use of " + v
 					}
+					if why := a.peeledSentinelsDirty(x.Cond, v); why != "" {
+						return "unknown", why
+					}
 					continue
 				}
 				return "unknown", "nested use of " + v
+			case *ast.SwitchStmt:
+				verdict, why, pending := a.switchOnErr(u, x, v)
+				if pending {
+					continue // every clause peels a special value off; the general error is still pending
+				}
+				return verdict, why
 			case *ast.ReturnStmt:
 				if len(x.Results) > 0 && mentions(x.Results[len(x.Results)-1], v) && u.errResult {
 					return "assigned_then_checked", ""
@@ -799,6 +809,115 @@ func (a *analysis) scanForward1(u *unit, path []pathEl, v string, obj types.Obje
 		return "dropped_continue", v + " is never examined before its scope ends (a later " + v + " is another variable)"
 	}
 	return "dropped_continue", v + " is never examined before the function ends"
+}
+
+// peeledSentinelsDirty: the condition compares v with package-level error
+// values of this package (v == ErrX); says why when one of them can be
+// returned by the callee after it has written.
+func (a *analysis) peeledSentinelsDirty(c ast.Expr, v string) string {
+	why := ""
+	ast.Inspect(c, func(n ast.Node) bool {
+		b, ok := n.(*ast.BinaryExpr)
+		if !ok || b.Op != token.EQL || why != "" {
+			return why == ""
+		}
+		for _, pair := range [][2]ast.Expr{{b.X, b.Y}, {b.Y, b.X}} {
+			if id, ok := ast.Unparen(pair[0]).(*ast.Ident); ok && id.Name == v {
+				if name := a.sentinelName(pair[1]); name != "" && !strings.Contains(name, ".") {
+					if ok, w := a.sentinelClean(a.curCallee, name); !ok {
+						why = "compared with " + name + " and turned into success, but " + w
+					}
+				}
+			}
+		}
+		return true
+	})
+	return why
+}
+
+// switchOnErr classifies `switch v { case ErrX: ..; default: return .., v }`
+// (and the tagless form `switch { case v == ErrX: ..; case v != nil: .. }`).
+// A clause for nil is the success path.  A clause comparing v with named error
+// values peels them off (its body must not use v, and a value of this package
+// must be one the callee can only return before it has written anything, see
+// sentinelClean; values of other packages are accepted as the `if` form
+// accepts them).  The clause taken for every other error - `default`, or
+// `case v != nil` - decides; without one the error is still pending after the
+// switch.
+func (a *analysis) switchOnErr(u *unit, sw *ast.SwitchStmt, v string) (verdict, why string, pending bool) {
+	if sw.Init != nil {
+		return "unknown", "switch with an init statement", false
+	}
+	tagged := false
+	if sw.Tag != nil {
+		id, ok := ast.Unparen(sw.Tag).(*ast.Ident)
+		if !ok || id.Name != v {
+			return "unknown", fmt.Sprintf("used at line %d in a switch on something else", a.fset.Position(sw.Pos()).Line), false
+		}
+		tagged = true
+	}
+	var general *ast.CaseClause
+	for _, cl := range sw.Body.List {
+		cc, ok := cl.(*ast.CaseClause)
+		if !ok {
+			return "unknown", "switch clause of unrecognised shape", false
+		}
+		body := &ast.BlockStmt{List: cc.Body}
+		if cc.List == nil { // default
+			if general == nil {
+				general = cc
+			}
+			continue
+		}
+		for _, e := range cc.List {
+			switch {
+			case tagged && isNilIdent(e):
+				if mentions(body, v) {
+					return "unknown", "the nil clause uses " + v, false
+				}
+			case tagged:
+				name := a.sentinelName(e)
+				if name == "" {
+					return "unknown", "switch case that is not a named error value", false
+				}
+				if mentions(body, v) {
+					return "unknown", "the clause for " + name + " uses " + v, false
+				}
+				if !strings.Contains(name, ".") {
+					if ok, w := a.sentinelClean(a.curCallee, name); !ok {
+						return "unknown", "case " + name + " turned into success, but " + w, false
+					}
+				}
+			case condIsErrNotNil(e, v):
+				if len(cc.List) != 1 {
+					return "unknown", "switch case list of unrecognised shape", false
+				}
+				general = cc
+			case condIsErrEqNil(e, v):
+				if mentions(body, v) {
+					return "unknown", "the nil clause uses " + v, false
+				}
+			case mentions(e, v):
+				if mentions(body, v) {
+					return "unknown", "conditional use of " + v, false
+				}
+				if w := a.peeledSentinelsDirty(e, v); w != "" {
+					return "unknown", w, false
+				}
+			default:
+				// a clause about something else: the error is not looked at on that path
+				return "unknown", "switch clause that does not look at " + v, false
+			}
+		}
+	}
+	if general == nil {
+		return "", "", true
+	}
+	vd, w := a.errBranch(u, &ast.BlockStmt{List: general.Body}, v)
+	if vd == "ok" {
+		return "assigned_then_checked", "switch: the clause for every other error returns it", false
+	}
+	return vd, w, false
 }
 
 func condIsErrEqNil(c ast.Expr, v string) bool {
@@ -853,6 +972,7 @@ func errVarOfAssign(lhs []ast.Expr, rhs []ast.Expr, call *ast.CallExpr) (string,
 // classify one fallible call inside unit u. parents = ancestors of the call
 // inside the unit, innermost last.
 func (a *analysis) classify(u *unit, call *ast.CallExpr, parents []ast.Node) (string, string) {
+	a.curCallee = a.calleeFunc(call)
 	// innermost statement
 	var stmt ast.Stmt
 	si := -1
@@ -1065,6 +1185,9 @@ func (a *analysis) afterAssign(u *unit, s ast.Stmt, v string, call *ast.CallExpr
 				// variable declared in the if-init is out of scope afterwards
 				if as, ok := s.(*ast.AssignStmt); ok && as.Tok == token.DEFINE {
 					return "dropped_continue", "only compared with a special value inside the if statement"
+				}
+				if why := a.peeledSentinelsDirty(is.Cond, v); why != "" {
+					return "unknown", why
 				}
 				path := findPath(u.body.List, is.Pos())
 				if path == nil {
